@@ -1017,6 +1017,8 @@ scanAgain:
 			}
 		case '|':
 			tok = s.switch3(token.OR, token.OR_ASSIGN, '|', token.LOR)
+		case '~':
+			tok = token.TILDE
 		case '?':
 			tok = token.QUESTION
 			insertSemi = true
